@@ -44,8 +44,19 @@ def main():
         if r.returncode:
             r = sh(["git", "-C", wt, "apply", "-3", "--whitespace=nowarn", os.path.join(d, "patch.diff")])
         if r.returncode:
+            # a failed 3-way merge leaves conflict markers behind: start from a clean tree before the last resort
+            sh(["git", "-C", wt, "checkout", "-q", "--", "pymemcache"])
             r = sh(["patch", "-p1", "--fuzz=3", "-i", os.path.join(d, "patch.diff")], cwd=wt)
-        out["patch_applies"] = r.returncode == 0
+        ok = r.returncode == 0
+        if ok:
+            rc = sh([PY, "-m", "compileall", "-q", os.path.join(wt, "pymemcache")])
+            ok = rc.returncode == 0 and not sh(["grep", "-rlE", "^(<<<<<<<|>>>>>>>)", os.path.join(wt, "pymemcache")]).stdout.strip()
+        out["patch_applies"] = ok
+        if not ok:
+            out["caught"] = None
+            out["error"] = "the patch no longer applies to /repo HEAD: rebase it (keep the original as patch.orig-<commit>.diff)"
+            print(json.dumps(out, indent=1))
+            return 2
         if r.returncode: print(r.stdout, r.stderr)
         rc1, o1 = demo(wt, dpath); out["demo_with_change"] = "fails (as required)" if rc1 != 0 else "PASSES (not a valid seed)"
         if "--no-suite" not in sys.argv:
